@@ -121,8 +121,9 @@ class Graph:
         bs = tuple(self.nodes[b] for b in bases)
         if node in IFACES and not bs:
             bs = (self.Interface,)
-        self.nodes[node].__bases__ = bs
+        # mirror first: __bases__ is stored before changed() runs, so an assignment made from inside a changed() callback is the later one
         self.bases[node] = tuple(bases)
+        self.nodes[node].__bases__ = bs
 
 
 def reach(bases, s):
@@ -367,6 +368,56 @@ def make_e_twins(params, part, nparts):
     return h
 
 
+# ---------------------------------------------------------------------------------------------------------------
+# e_reentrant: a dependent registered through the public subscribe() protocol (the one adapter registries use) re-bases a
+# node from inside its changed() callback, i.e. while the changed() of the outer assignment is still on the stack.
+class _Dep:
+    def __init__(self, g, node, bases):
+        self.g, self.node, self.bases, self.fired = g, node, bases, False
+
+    def changed(self, originally_changed):
+        if not self.fired:
+            self.fired = True
+            self.g.rebase(self.node, self.bases)
+
+
+def run_reentrant(outer, watch, inner):
+    g = Graph()
+    dep = _Dep(g, inner[0], inner[1])
+    g.nodes[watch].subscribe(dep)
+    g.rebase(outer[0], outer[1])
+    g.nodes[watch].unsubscribe(dep)
+    hist = (outer,) + ((inner,) if dep.fired else ())
+    what = '%s.__bases__ assignment during which a dependent subscribed to %s %s' % (
+        NAMES[outer[0]], NAMES[watch], ('re-based ' + fmt((inner,)) + ' from its changed() callback') if dep.fired else 'was not notified')
+    try:
+        check(g, hist)
+    except Violation as v:
+        raise Violation('%s: %s' % (what, v.msg if hasattr(v, 'msg') else v), signature='C02:reentrant')
+    f = Graph(fresh_bases=g.bases)
+    for s in range(NN):
+        a = [g.index(x) for x in g.nodes[s].__sro__]
+        b = [f.index(x) for x in f.nodes[s].__sro__]
+        if a != b:
+            raise Violation('%s: %s.__sro__ is %s; a freshly built graph of the final shape gives %s' % (what, NAMES[s], _nm(a), _nm(b)),
+                            signature='C02:reentrant')
+    return dep.fired
+
+
+def make_e_reentrant(params, part, nparts):
+    alpha = alphabet(CAND_SMALL, 2)
+    alpha_in = alphabet(CAND_SMALL, params.get('inner_maxb', 2))
+    NA, NI = len(alpha), len(alpha_in)
+
+    def h(o1: int, w: int, o2: int):
+        c1 = pick(o1, NA)
+        assume(c1 % nparts == part)
+        outer, watch, inner = alpha[c1], pick(w, NN - 1) + 1, alpha_in[pick(o2, NI)]
+        reached((c1, watch, inner), dict(outer=fmt((outer,)), watch=NAMES[watch], inner=fmt((inner,))))
+        native(run_reentrant, outer, watch, inner)
+    return h
+
+
 _ENC = ['zope.interface.interface:Specification.changed', 'zope.interface.interface:Specification._calculate_sro',
         'zope.interface.interface:Specification.subscribe', 'zope.interface.interface:Specification.unsubscribe',
         'zope.interface.interface:Specification.extends', 'zope.interface.interface:SpecificationBasePy.isOrExtends',
@@ -394,6 +445,14 @@ HARNESSES = [
             encoded=_ENC,
             bounds=_B + 'assignments of ordered subsets of size <=3; quick L=1, thorough L<=2 (pure-Python build)',
             oracle='as e_rebase'),
+    Harness('e_reentrant', make_e_reentrant, kind='E', impls=('py', 'c'),
+            tiers=dict(quick=dict(budget_s=150, parts=16, params=dict(inner_maxb=1)), thorough=dict(budget_s=900, parts=16, params={})),
+            encoded=_ENC,
+            bounds=_B + 'one assignment from the small alphabet (<=2 bases) x a dependent (public subscribe() protocol) attached to any of the 12 re-basable or '
+                        'derived nodes x one assignment (quick: <=1 base, thorough: <=2) performed from inside the dependent\'s changed() callback, while '
+                        'the outer changed() is still running; all 169 ordered pairs and every __sro__ afterwards',
+            outside='more than one re-entrant assignment; callbacks that raise',
+            oracle='reachability over the final __bases__ and a freshly built graph of the final shape'),
     Harness('e_twins', make_e_twins, kind='E', impls=('py', 'c'),
             tiers=dict(quick=dict(budget_s=90, parts=8, params=dict(L=2)),
                        thorough=dict(budget_s=1500, parts=16, params=dict(L=3))),
